@@ -112,6 +112,14 @@ pub fn gen_idrefs(r: &mut Rng, max: usize) -> Vec<IdRef> {
 }
 
 pub fn gen_list(r: &mut Rng, max: usize) -> Option<Vec<IdRef>> {
+    // now and then a long list (17-40 entries, mostly unknown ids) with a held credential somewhere in it
+    if r.chance(1, 16) {
+        let n = r.range(17, 40) as usize;
+        let mut l: Vec<IdRef> = (0..n).map(|_| IdRef::Unknown(r.bytes(16))).collect();
+        let at = r.usize(n);
+        l[at] = IdRef::NthOfRp(r.below(3) as u32);
+        return Some(l);
+    }
     match r.below(5) {
         0 => None,
         1 => Some(vec![]),
